@@ -655,7 +655,7 @@ where
         }
         // check this ???
         let rssi = ((-(pkt_status[0] as i32)) >> 1) as i16;
-        let snr = (((pkt_status[1] as i8) + 2) >> 2) as i16;
+        let snr = ((pkt_status[1] as i8 as i16) + 2) >> 2;
         let _signal_rssi = ((-(pkt_status[2] as i32)) >> 1) as i16; // unused currently
 
         Ok(PacketStatus { rssi, snr })
